@@ -49,6 +49,11 @@ Definition json_sort_keys (l : list Z) : list Z := sort_by (fun x => x) l.
 Definition sub_run_spec (start_of : Z -> Z) (data : list Z) : list Z :=
   json_sort_keys (define_run_order start_of data).
 
+(* context.py Context._sub_run_spec_by_start (since /repo 317aec4): check_cache re-orders the spec it read
+   by the run starts (python's sorted is stable) before it makes and chains the sub-runs *)
+Definition chained_spec (start_of : Z -> Z) (data : list Z) : list Z :=
+  sort_by start_of (sub_run_spec start_of data).
+
 (* ---------------------------------------------------------------------------------------------
    DataKey._run_id: run_id + "_" + deterministic_hash((subruns, combining)).  hashablize sorts the
    items of a dict, so the canonical serialisation is the sorted list of run ids (every value is
